@@ -32,6 +32,7 @@ def configure(p):
     P.clear()
     P.update(p)
     C = ops.payloads(common.load({"schema": "list", "doc": p.get("doc", 1)}))
+    C.slices.extend(common.templates.raw_slices("list"))      # zero-size, non-empty slices (indices 17, 18)
     del DOCS[:]
     for i in p.get("effect_docs", [0, 1, 3]):
         DOCS.append(common.templates.doc("list", i))
